@@ -21,7 +21,7 @@ pub struct IntraInfo {
 pub fn check_intra(pic: &Pic) -> Result<IntraInfo, String> {
     let model = reconstruct(pic, None).map_err(|e| format!("HARNESS: generator produced an invalid intra picture: {}", e))?;
     let bytes = encode_pic(pic);
-    let mut st = H263State::new(options(pic.hdr.mode, false));
+    let mut st = H263State::new(options_scal(pic.hdr.mode, pic.hdr.tr % 2 == 1));
     match decode_bytes(&mut st, &bytes) {
         Outcome::Ok => {}
         o => return Err(format!("valid intra picture ({} {:?} q{}) was not decoded: {}", mode_label(&pic.hdr), pic.hdr.size, pic.hdr.quant, o.short())),
